@@ -77,6 +77,8 @@ def render_expr(e, ind=1):
         return '%s({%s})' % (e[1], ', '.join('%s = %s' % (n, render_expr(v, ind)) for n, v in e[2]))
     if k == 'pipe':
         return '(%s |> %s)' % (render_expr(e[1], ind), e[2])
+    if k == 'block':
+        return render_block(e[1], ind, True)
     raise ValueError(k)
 
 
@@ -311,6 +313,10 @@ class RefEval(object):
             return Closure([n if isinstance(n, str) else n[0] for n in e[1]], e[2], env, self.site(e))
         if k == 'pipe':
             return self.eval(('call', e[2], [e[1]]), env, path, frame)
+        if k == 'block':
+            # `{ ... }` in expression position: bindings made inside end with the block (`let` already evaluates its body in a copy
+            # of the environment, so nothing leaks); assignments to OUTER variables go through their cells and stay
+            return self.eval(e[1], env, path + (('blk', self.site(e)),), frame)
         if k == 'call':
             args = [self.eval(a, env, path + (('a%d' % i, self.site(e)),), frame) for i, a in enumerate(e[2])]
             cpath = path + (('call', self.site(e)),)
